@@ -436,8 +436,10 @@ class ScoredCollector(Collector):
 
             # If we're using block quality optimizations, and the checkquality
             # flag is true, try to skip ahead to the next block with the
-            # minimum required quality
-            if usequality and checkquality and minscore is not None:
+            # minimum required quality. A minscore of 0 means there is no
+            # minimum yet (the heap is not full): skipping blocks whose
+            # quality is <= 0 then would lose zero-scoring documents
+            if usequality and checkquality and minscore:
                 self.may_have_dropped = True
                 self.skipped_times += matcher.skip_to_quality(minscore)
                 # Skipping ahead might have moved the matcher to the end of the
